@@ -4,6 +4,9 @@
 
 pub mod outcome;
 pub mod report;
+pub mod pcmodel;
+pub mod btok;
+pub mod slots;
 
 pub use outcome::*;
 pub use report::*;
